@@ -6,7 +6,7 @@ and side) is executed and must raise the documented error and leave the full sna
 """
 from mc.engine import hbfs
 from mc.engine.report import Violation
-from mc.engine.seams import Canon
+from mc.engine.seams import Canon, public_snapshot
 
 import ECAgent.Core as Core
 import ECAgent.Environments as Envs
@@ -97,10 +97,15 @@ class Harness:
     def ops(self, w):
         return self._ops
 
-    def snapshot(self, w):
+    def canon(self, w):
         return self.cn(w.model, [w.agents[k] for k in self.keys + ['probe']], w.comps)
 
-    canon = snapshot
+    def snapshot(self, w):
+        # documented attributes only: environment map, every pool agent's components (incl. a stray position
+        # component), positions, component listings
+        names = {id(a): k for k, a in w.agents.items()}
+        names.update({id(c): f'comp{i}' for i, c in enumerate(w.comps)})
+        return public_snapshot(w.model, [w.agents[k] for k in self.keys + ['probe']], names)
 
     def _resident_ids(self, w):
         return {self.idof[k]: k for k in w.ref}
